@@ -178,12 +178,28 @@ inductive Access where
   | getattr (n : Name)                               -- getattr(obj, n)
   | callattr (n : Name) (argmap : List (Name × Name))  -- getattr(obj, n)(*args, **remapped kwargs)
   | getitem (n : Name)                               -- obj[n]
+  | attrThenRaise (n : Name)                         -- getattr(obj, n) done, then yaql raised RuntimeError
 deriving DecidableEq, Repr, Inhabited
 
 def Access.member : Access → Name
   | .getattr n => n
   | .callattr n _ => n
   | .getitem n => n
+  | .attrThenRaise n => n
+
+/-- the name of a keyword argument as the remapped method receives it -/
+def remapKw (am : List (Name × Name)) (k : Name) : Name :=
+  match am with
+  | [] => k
+  | (a, b) :: rest => if a == k then b else remapKw rest k
+
+/-- `for key, value in kwargs.items(): kwargs[arg_mappings.get(key, key)] = value(..)` inserts a new
+    key into the dict it iterates as soon as a passed keyword argument is renamed to a name that
+    is not itself a passed keyword: Python raises RuntimeError (dictionary changed size during
+    iteration) before the method is called.  (A rename onto another passed keyword is outside the
+    model; the harness never generates it.) -/
+def renamesKw (am : List (Name × Name)) (kws : List Name) : Bool :=
+  kws.any fun k => !kws.contains (remapKw am k)
 
 /-- `attribution(obj, attr)` after the type check -/
 def attribution {E : Type} [EntryLike E] (s : Settings E) (n : Name) : Except Err Access :=
@@ -194,14 +210,15 @@ def attribution {E : Type} [EntryLike E] (s : Settings E) (n : Name) : Except Er
     | .name m => .ok (.getattr m)
     | .tuple _ _ => .error .typeError
 
-/-- `op_dot(receiver, expr)` after the type check (`expr.name` is `n`) -/
-def opDot {E : Type} [EntryLike E] (s : Settings E) (n : Name) : Except Err Access :=
+/-- `op_dot(receiver, expr)` after the type check (`expr.name` is `n`, `kws` the names of the keyword
+    arguments written in the call) -/
+def opDot {E : Type} [EntryLike E] (s : Settings E) (n : Name) (kws : List Name := []) : Except Err Access :=
   match validateName .attributeError s n with
   | .error e => .error e
   | .ok () =>
     match remapName s n with
     | .name m => .ok (.callattr m [])
-    | .tuple m (some am) => .ok (.callattr m am)
+    | .tuple m (some am) => if renamesKw am kws then .ok (.attrThenRaise m) else .ok (.callattr m am)
     | .tuple _ none => .error .indexError
 
 /-- `indexation(obj, key)` after the type check: no remapping on this path -/
@@ -220,22 +237,17 @@ def Kind.flags : Kind → Flags
   | .index => { index := true }
 
 /-- one member access form applied to a host object, type check included -/
-def access {E : Type} [EntryLike E] (k : Kind) (h : Host E) (n : Name) : Except Err Access :=
+def access {E : Type} [EntryLike E] (k : Kind) (h : Host E) (n : Name) (kws : List Name := []) :
+    Except Err Access :=
   match h with
   | none => .error .notYaqlized
   | some s =>
     if check k.flags (some s) then
       match k with
       | .attr => attribution s n
-      | .method => opDot s n
+      | .method => opDot s n kws
       | .index => indexation s n
     else .error .notYaqlized
-
-/-- the name of a keyword argument as the remapped method receives it -/
-def remapKw (am : List (Name × Name)) (k : Name) : Name :=
-  match am with
-  | [] => k
-  | (a, b) :: rest => if a == k then b else remapKw rest k
 
 /-! ## auto-yaqlization of results -/
 
